@@ -10,3 +10,5 @@ for name in "$@"; do
   if [ -n "$r" ]; then echo "$name: caught: ${r:0:200}"; else echo "$name: MISSED"; fi
 done
 cd /verif && python3 translator/gen.py > /dev/null
+# the evidence files now describe runs on a changed tree: restore the committed ones
+git -C /verif checkout -- evidence
